@@ -173,7 +173,10 @@ func ProcessPostAliasesRequest(ctx *fasthttp.RequestCtx, myid int64) {
 		switch value.(type) {
 		case []interface{}:
 			if key == "actions" {
-				processActions(ctx, jsonBody[key], myid)
+				// a refused action has answered the request with 400: it is not acknowledged
+				if !processActions(ctx, jsonBody[key], myid) {
+					return
+				}
 			} else {
 				log.Errorf("ProcessPostAliasesRequest: unknown key: %v", key)
 				utils.SetBadMsg(ctx, "")
@@ -197,7 +200,8 @@ func ProcessPostAliasesRequest(ctx *fasthttp.RequestCtx, myid int64) {
    [{"remove": {"index": "test1", "alias" : "alias1"  } }]
 */
 
-func processActions(ctx *fasthttp.RequestCtx, actions interface{}, myid int64) {
+// processActions runs the actions in order and returns false as soon as one of them is refused
+func processActions(ctx *fasthttp.RequestCtx, actions interface{}, myid int64) bool {
 
 	switch t := actions.(type) {
 	case []interface{}:
@@ -206,33 +210,38 @@ func processActions(ctx *fasthttp.RequestCtx, actions interface{}, myid int64) {
 			case map[string]interface{}:
 				for aKey, aValue := range t1 {
 					if aKey == "add" {
-						parseAddAction(ctx, aValue, myid)
+						if !parseAddAction(ctx, aValue, myid) {
+							return false
+						}
 					} else if aKey == "remove" {
-						parseRemoveAction(ctx, aValue, myid)
+						if !parseRemoveAction(ctx, aValue, myid) {
+							return false
+						}
 					} else {
 						log.Errorf("processActions: unhandled action aKey: %v", aKey)
 						utils.SetBadMsg(ctx, "")
-						return
+						return false
 					}
 				}
 			default:
 				log.Errorf("processActions: unknown t1.type=%T, t1=%v", t1, t1)
 				utils.SetBadMsg(ctx, "")
-				return
+				return false
 			}
 		}
 	default:
 		log.Errorf("processActions: unknown actions.(type), actions=%v, value.type=%T", t, t)
 		utils.SetBadMsg(ctx, "")
-		return
+		return false
 	}
+	return true
 }
 
 /*
    { "index" : "test1", "alias" : "alias1" }}
 */
 
-func parseAddAction(ctx *fasthttp.RequestCtx, params interface{}, myid int64) {
+func parseAddAction(ctx *fasthttp.RequestCtx, params interface{}, myid int64) bool {
 	log.Infof("parseAddAction: add alias request, params=%v", params)
 	switch t := params.(type) {
 	case map[string]interface{}:
@@ -240,20 +249,20 @@ func parseAddAction(ctx *fasthttp.RequestCtx, params interface{}, myid int64) {
 		if aliasName == nil {
 			log.Errorf("parseAddAction: aliasName is nil, params=%v", params)
 			utils.SetBadMsg(ctx, "")
-			return
+			return false
 		}
 		indexName := t["index"]
 		indices := t["indices"]
 		if indexName == nil && indices == nil {
 			log.Errorf("parseAddAction: both indexName and indices is nil, params=%v", params)
 			utils.SetBadMsg(ctx, "")
-			return
+			return false
 		}
-		doAddAliases(ctx, indexName, aliasName, indices, myid)
+		return doAddAliases(ctx, indexName, aliasName, indices, myid)
 	default:
 		log.Errorf("parseAddAction: unknown params.(type)=%T  params=%v", params, params)
 		utils.SetBadMsg(ctx, "")
-		return
+		return false
 	}
 }
 
@@ -263,28 +272,29 @@ func parseAddAction(ctx *fasthttp.RequestCtx, params interface{}, myid int64) {
    { "indices" : ["test1", "test2"], "alias" : "alias1" }
 */
 
-func doAddAliases(ctx *fasthttp.RequestCtx, indexName interface{}, aliasName interface{}, indices interface{}, myid int64) {
+func doAddAliases(ctx *fasthttp.RequestCtx, indexName interface{}, aliasName interface{}, indices interface{}, myid int64) bool {
 
 	log.Infof("doAddAliases: addalias for indexName=%v, aliasName=%v, indices=%v", indexName, aliasName, indices)
 
 	if _, ok := aliasName.(string); !ok {
 		log.Errorf("doAddAliases: aliasName is not a string, aliasName=%v", aliasName)
 		utils.SetBadMsg(ctx, "")
-		return
+		return false
 	}
 
 	if indexName != nil {
 		if _, ok := indexName.(string); !ok {
 			log.Errorf("doAddAliases: indexName is not a string, indexName=%v", indexName)
 			utils.SetBadMsg(ctx, "")
-			return
+			return false
 		}
 		err := vtable.AddAliases(indexName.(string), []string{aliasName.(string)}, myid)
 		if err != nil {
 			log.Errorf("doAddAliases: failed to add alias, indexName=%v, aliasName=%v err=%v", indexName.(string), aliasName.(string), err)
 			utils.SetBadMsg(ctx, "")
+			return false
 		}
-		return
+		return true
 	}
 
 	switch t := indices.(type) {
@@ -293,20 +303,23 @@ func doAddAliases(ctx *fasthttp.RequestCtx, indexName interface{}, aliasName int
 			if _, ok := iVal.(string); !ok {
 				log.Errorf("doAddAliases: index name in indices is not a string, indices=%v", indices)
 				utils.SetBadMsg(ctx, "")
-				return
+				return false
 			}
 		}
 		for _, iVal := range t {
 			err := vtable.AddAliases(iVal.(string), []string{aliasName.(string)}, myid)
 			if err != nil {
 				log.Errorf("doAddAliases: failed to add alias, indexName=%v, aliasName=%v err=%v", iVal.(string), aliasName.(string), err)
+				utils.SetBadMsg(ctx, "")
+				return false
 			}
 		}
 	default:
 		log.Errorf("doAddAliases: unknown indices.(type)=%T  indices=%v", indices, indices)
 		utils.SetBadMsg(ctx, "")
-		return
+		return false
 	}
+	return true
 }
 
 /*
@@ -315,7 +328,7 @@ func doAddAliases(ctx *fasthttp.RequestCtx, indexName interface{}, aliasName int
 
 */
 
-func parseRemoveAction(ctx *fasthttp.RequestCtx, params interface{}, myid int64) {
+func parseRemoveAction(ctx *fasthttp.RequestCtx, params interface{}, myid int64) bool {
 	log.Infof("parseRemoveAction: remove alias request, params=%v", params)
 	switch t := params.(type) {
 	case map[string]interface{}:
@@ -323,37 +336,38 @@ func parseRemoveAction(ctx *fasthttp.RequestCtx, params interface{}, myid int64)
 		if aliasName == nil {
 			log.Errorf("parseRemoveAction: aliasName is nil, params=%v", params)
 			utils.SetBadMsg(ctx, "")
-			return
+			return false
 		}
 		indexName := t["index"]
 		if indexName == nil {
 			log.Errorf("parseRemoveAction: both indexName is nil, params=%v", params)
 			utils.SetBadMsg(ctx, "")
-			return
+			return false
 		}
 
 		if _, ok := indexName.(string); !ok {
 			log.Errorf("parseRemoveAction: indexName is not a string, indexName=%v", indexName)
 			utils.SetBadMsg(ctx, "")
-			return
+			return false
 		}
 
 		if _, ok := aliasName.(string); !ok {
 			log.Errorf("parseRemoveAction: aliasName is not a string, aliasName=%v", aliasName)
 			utils.SetBadMsg(ctx, "")
-			return
+			return false
 		}
 
 		err := vtable.RemoveAliases(indexName.(string), []string{aliasName.(string)}, myid)
 		if err != nil {
 			log.Errorf("parseRemoveAction: failed to remove alias, indexName=%v, aliasName=%v err=%v", indexName.(string), aliasName.(string), err)
 			utils.SetBadMsg(ctx, "")
+			return false
 		}
-		return
+		return true
 	default:
 		log.Errorf("parseRemoveAction: unknown params.(type)=%T  params=%v", params, params)
 		utils.SetBadMsg(ctx, "")
-		return
+		return false
 	}
 }
 
